@@ -256,6 +256,7 @@ pub fn run() -> usize {
             shards: 1,
             nontrivial: true,
             unbounded: false,
+            loop_body: false,
         };
         let rep = explore(&sc, 0, 1, None);
         let model_outcomes = outcomes.lock().unwrap().clone();
